@@ -47,6 +47,8 @@ func (o Op) String() string {
 		return "FB(" + o.B + ")"
 	case "FA":
 		return "FA(" + o.A + ")"
+	case "SU":
+		return "set_url-failing(" + o.B + ")"
 	case "S1", "S25":
 		return o.Kind + "(" + o.B + "," + o.A + ")"
 	case "local":
@@ -119,6 +121,9 @@ func alphabet(quick bool, root string) (ops []Op) {
 			}
 		}
 	}
+	for _, a := range []string{"connerr", "404", "eofmid", "html", "nul1"} {
+		ops = append(ops, Op{Root: root, Kind: "SU", B: a})
+	}
 	for _, l := range localStates {
 		ops = append(ops, Op{Root: root, Kind: "local", Local: l})
 	}
@@ -131,6 +136,8 @@ func alphabet(quick bool, root string) (ops []Op) {
 const (
 	urlBlock = "http://lists.test/block.txt"
 	urlAllow = "http://lists.test/allow.txt"
+	// urlBlock2 is the address a set_url edit tries to move the block list to.
+	urlBlock2 = "http://lists.test/block2.txt"
 
 	idBlock = 1
 	idAllow = 2
@@ -577,6 +584,13 @@ func (w *world) step(op Op, hist []Op) (outcome string, nontrivial bool, vkey, v
 			if code, body := w.d.VerifC15ForcedRefresh(true); code != 200 {
 				panic(fmt.Sprintf("harness: refresh API answered %d %s", code, body))
 			}
+		case "SU":
+			// The address of the block list is edited (set_url) to another one
+			// whose download fails: the edit is refused and nothing changes.
+			w.tr.script[urlBlock2] = op.B
+			if _, serr := w.d.VerifC14SetURL(urlBlock, urlBlock2); serr == nil {
+				panic("setaccepted")
+			}
 		case "S1", "S25":
 			w.tr.script[urlBlock] = op.B
 			w.tr.script[urlAllow] = op.A
@@ -609,6 +623,9 @@ func (w *world) step(op Op, hist []Op) (outcome string, nontrivial bool, vkey, v
 	if panicked != nil {
 		if s, ok := panicked.(string); ok && strings.HasPrefix(s, "harness: ") {
 			return "", false, "harness-step", s
+		}
+		if s, ok := panicked.(string); ok && s == "setaccepted" {
+			return fail("set-url-accepted-although-download-failed:"+op.B, fmt.Sprintf("set_url to an address whose download fails (%s) was accepted", op.B), nil)
 		}
 		return fail("panic:"+op.Kind, fmt.Sprintf("the refresh panicked: %v", panicked), nil)
 	}
@@ -652,6 +669,9 @@ func (w *world) step(op Op, hist []Op) (outcome string, nontrivial bool, vkey, v
 			a.ok, a.raw = true, raw
 		}
 		return a
+	}
+	if op.Kind == "SU" {
+		atts = append(atts, attempt{id: idBlock, answer: "set_url:" + op.B, ok: false})
 	}
 	refreshOp := op.Kind == "FB" || op.Kind == "FA" || op.Kind == "S1" || op.Kind == "S25"
 	if refreshOp {
